@@ -112,8 +112,8 @@ pub fn default_delegates_dec<T: Dec + DecState>(kk: usize, r: usize, len_a: usiz
     let (c1, c2) = (d.add_o(i, &buf[2..4]), t.add_o(i, &buf[2..4]));
     assert!(c1 == c2);
     assert!(d.snap().same(&t.snap(), false), "DefaultRateDecoder diverged from the dedicated decoder");
-    kcover!(a1.is_ok() && b1.is_ok());
-    kcover!(a1.is_err() && b1.is_err());
+    kcover!(a1.is_ok());
+    kcover!(a1.is_err());
 }
 
 /// decode on the error path (too few) and on the nothing-to-restore path
